@@ -106,6 +106,11 @@ def default_policy(caller, callee, depth):
         return True
     if callee.name.startswith('_') and not callee.name.startswith('__'):
         return True
+    if callee.cls is None and getattr(callee, 'parent', None) is None:
+        # a module-level function that is one returned expression (a key formatter, a unit conversion) is read through like the expression it names
+        body = callee.body()
+        if len(body) == 1 and isinstance(body[0], ast.Return) and body[0].value is not None and not any(isinstance(n, (ast.Yield, ast.YieldFrom, ast.Await)) for n in ast.walk(body[0])):
+            return True
     return False
 
 
@@ -125,6 +130,7 @@ class SymEx:
         self.suppress = 0
         self.in_comp = 0
         self._gcache = {}
+        self.try_lookup = 0
         self.closures = {}
         self.dyn = {}
 
@@ -257,6 +263,13 @@ class SymEx:
                 return [(st.copy(exc=('reraise', self.site(s))), None)]
             e = s.exc
             cname = ast.unparse(e.func) if isinstance(e, ast.Call) else ast.unparse(e)
+            head = e.func if isinstance(e, ast.Call) else e
+            if isinstance(head, ast.Name) and head.id in st.env:
+                hv = st.env[head.id]
+                if hv[0] == 'ext':
+                    cname = hv[1].split('.')[-1]          # error_class = KeyError ; raise error_class(...)
+                elif hv[0] == 'var' and hv[1].startswith('class:'):
+                    cname = hv[1][6:]
             argsl = e.args if isinstance(e, ast.Call) else []
             res = self.seq(argsl, st)
             for x, vs in res:
@@ -465,8 +478,12 @@ class SymEx:
             tg, how, layer = self.M.resolve_any(self.fn, s.iter, self.tenv())
             if len(tg) == 1 and _is_generator(tg[0]):
                 return [(x, None) for x, v in self.ev(ast.copy_location(ast.YieldFrom(value=s.iter), s), st)]
+        heads0 = None
         if is_for and not self.suppress:
-            heads = self.ev(s.iter, st)
+            heads = heads0 = [(x_, _literal_rows(v_)) for x_, v_ in self.ev(s.iter, st)]
+            if len(heads) == 1 and heads[0][0].exc is None and heads[0][1] in (('list', ()), ('tuple', ()), ('dict', ()), ('set', ())):
+                # nothing to iterate: the body never runs
+                return self.block(s.orelse, heads[0][0]) if s.orelse else [(heads[0][0], None)]
             if len(heads) == 1 and heads[0][0].exc is None and heads[0][1][0] in ('tuple', 'list') and 1 <= len(heads[0][1][1]) <= 8 \
                     and not any(z[0] == 'starred' for z in heads[0][1][1]):
                 # a loop over a literal table runs its body once per row, in order: unrolled exactly (continue/break/return/raise included)
@@ -491,7 +508,7 @@ class SymEx:
                 return out
         lid = next(self.uid)
         out = []
-        heads = self.ev(s.iter, st) if is_for else [(st, None)]
+        heads = (heads0 if heads0 is not None else self.ev(s.iter, st)) if is_for else [(st, None)]
         for x, it in heads:
             if x.exc is not None:
                 out.append((x, None))
@@ -733,7 +750,13 @@ class SymEx:
     def try_(self, s, st):
         out = []
         before = getattr(self, '_modelled_lookups', 0)
-        body = self.block(s.body, st)
+        catches_key = any(h.type is not None and any(z in ('KeyError', 'LookupError') for z in
+                                                      ([ast.unparse(q) for q in h.type.elts] if isinstance(h.type, ast.Tuple) else [ast.unparse(h.type)])) for h in s.handlers)
+        self.try_lookup += 1 if catches_key else 0
+        try:
+            body = self.block(s.body, st)
+        finally:
+            self.try_lookup -= 1 if catches_key else 0
         # a body made only of modelled table lookups raises nothing the model does not show
         only_lookups = getattr(self, '_modelled_lookups', 0) > before and not any(isinstance(n, ast.Call) for b_ in s.body for n in ast.walk(b_))
         catch_all = any(h.type is None or (isinstance(h.type, ast.Name) and h.type.id in ('Exception', 'BaseException')) for h in s.handlers)
@@ -974,6 +997,17 @@ class SymEx:
                 b, i = vs
                 if x.exc is None and b[0] == 'dict' and isinstance(e.ctx, ast.Load) and i[0] not in ('str', 'num', 'const', 'slice') and _const_keyed(b):
                     out.extend(self.dict_lookup(b, i, x, e, None))
+                elif x.exc is None and self.try_lookup and isinstance(e.ctx, ast.Load) and b[0] in ('attr', 'var') and i[0] not in ('slice', 'num') \
+                        and not self.in_comp and not self.suppress:
+                    # inside `try: ... except KeyError`: the lookup succeeds when the key is present and raises KeyError when it is not
+                    self._modelled_lookups = getattr(self, '_modelled_lookups', 0) + 1
+                    for y, present in self.decide(('cmp', 'in', i, b), x, e):
+                        if present:
+                            out.append((y, self.subscript(b, i, y)))
+                        else:
+                            z = y.ev(Ev('raise', exc='KeyError', site=self.site(e), fn=self.fn.qn, args=(i,)))
+                            z.exc = ('raise', 'KeyError', self.site(e), self.fn.qn)
+                            out.append((z, ZERO))
                 else:
                     out.append((x, self.subscript(b, i, x)))
             return out
@@ -1031,7 +1065,11 @@ class SymEx:
                     out.extend(self.ev(e.body if b else e.orelse, y))
             return out
         if isinstance(e, ast.Call):
-            return [(x, _as_nt(v)) for x, v in self.call(e, st)]
+            res = [(x, _as_nt(v)) for x, v in self.call(e, st)]
+            for x, v in res:
+                if v[0] == 'call' and v[1] == ('ext', 'operator.methodcaller'):
+                    self.closures[id(v)] = (v, e, None, self.fn)        # remembered with its syntax: applying it later is a method call
+            return res
         if isinstance(e, (ast.Tuple, ast.List, ast.Set)):
             kind = {ast.Tuple: 'tuple', ast.List: 'list', ast.Set: 'set'}[type(e)]
             return [(x, (kind, tuple(vs))) for x, vs in self.seq(e.elts, st)]
@@ -1198,6 +1236,13 @@ class SymEx:
             # {k: f(k) for k in keys}[i]  ==  f(i)   (for i among the keys)
             bv = b[3][0][0][0]
             return T.replace(b[2][1][1], lambda t: i if t == bv else None)
+        if b[0] == 'comp' and b[1] == 'dict' and len(b[3]) == 1 and not b[3][0][2] and b[2][0] == 'tuple' and len(b[3][0][0]) == 2 \
+                and b[2][1][0] == b[3][0][0][0] and b[3][0][1][0] == 'call' and b[3][0][1][1] == ('meth', 'items') and len(b[3][0][1][2]) == 1:
+            # {k: f(k, v) for k, v in D.items()}[i]  ==  f(i, D[i])   (for i among the keys)
+            kb, vb = b[3][0][0]
+            src = b[3][0][1][2][0]
+            m_ = {kb: i, vb: self.subscript(src, i, st)}
+            return T.replace(b[2][1][1], lambda t: m_.get(t) if t[0] == 'bv' else None)
         return k
 
     def dict_lookup(self, b, i, st, node, default):
@@ -1532,6 +1577,12 @@ class SymEx:
                     if m is not None:
                         targets, how, layer, recv = [m], 'typed', 1, bm[1]
                         break
+        if not targets and how.startswith('untyped-attr') and isinstance(f, ast.Attribute) and isinstance(f.value, ast.Name):
+            # an untyped local (e.g. the loop variable of a helper that was handed a list): class-hierarchy resolution by method name
+            from .model import CONTAINER_METHODS
+            ch = self.M.cha(f.attr) if f.attr not in CONTAINER_METHODS else []
+            if ch and recv is not None and recv[0] in ('elem', 'sub', 'attr', 'var', 'call'):
+                targets, how, layer = ch, 'cha', 3
         dyn = self.dyn.get(len(self.frames))
         if dyn is not None and isinstance(f, ast.Attribute) and isinstance(f.value, ast.Name) and f.value.id == 'self' and recv == st.env.get('self'):
             m = dyn.lookup(f.attr)
@@ -1675,8 +1726,13 @@ class SymEx:
             if kind == 'itemgetter':
                 vals = [self.subscript(args[0], z, st) for z in fv[2]]
                 return [(st, vals[0] if len(vals) == 1 else ('tuple', tuple(vals)))]
-            if kind == 'methodcaller' and isinstance(e.func, ast.Call) and len(e.func.args) >= 1:
-                node = ast.Call(func=ast.Attribute(value=x_ast, attr=fv[2][0][1], ctx=ast.Load()), args=list(e.func.args[1:]), keywords=list(e.func.keywords))
+            src_ = e.func if isinstance(e.func, ast.Call) else None
+            if src_ is None:
+                clo = self.closures.get(id(fv))
+                if clo is not None and clo[0] is fv and clo[3] is self.fn:
+                    src_ = clo[1]
+            if kind == 'methodcaller' and src_ is not None and len(src_.args) >= 1:
+                node = ast.Call(func=ast.Attribute(value=x_ast, attr=fv[2][0][1], ctx=ast.Load()), args=list(src_.args[1:]), keywords=list(src_.keywords))
                 for n in ast.walk(node):
                     if not hasattr(n, 'lineno'):
                         ast.copy_location(n, e)
@@ -1747,6 +1803,9 @@ class SymEx:
             return [(st, _EMPTY_FOLD[fv[1]])]
         if fv == ('ext', 'COPY') and len(args) == 1 and not kws:
             return [(st, args[0])]
+        if fv == ('ext', 'builtins.getattr') and len(args) == 2 and not kws and args[1][0] == 'str' and len(e.args) == 2 and args[1][1].isidentifier():
+            # getattr(x, 'name') is x.name
+            return self.ev(ast.copy_location(ast.Attribute(value=e.args[0], attr=args[1][1], ctx=ast.Load()), e), st)
         if fv == ('ext', 'DICT') and len(args) == 1 and not kws:
             dc = _dict_of_zip(args[0], self.bv_depth)
             if dc is not None:
@@ -1790,6 +1849,27 @@ def make_nt(tname, values):
 
 
 NT_DEFAULTS = {}    # named-tuple type name -> {field: default term}
+
+
+def _literal_rows(it):
+    """the rows of a literal table, however it is traversed: TABLE.items() / .values() / .keys() / TABLE itself, enumerate(ROWS), zip(ROWS, ROWS)"""
+    if it[0] == 'call' and it[1] in (('meth', 'items'), ('meth', 'values'), ('meth', 'keys')) and len(it[2]) == 1 and it[2][0][0] == 'dict' and \
+            all(k is not None for k, _ in it[2][0][1]):
+        rows = it[2][0][1]
+        if it[1][1] == 'items':
+            return ('list', tuple(('tuple', (k, v)) for k, v in rows))
+        return ('list', tuple((v if it[1][1] == 'values' else k) for k, v in rows))
+    if it[0] == 'dict' and all(k is not None for k, _ in it[1]):
+        return ('list', tuple(k for k, _ in it[1]))
+    if it[0] == 'call' and it[1] == ('ext', 'ENUMERATE') and len(it[2]) == 1 and not it[3]:
+        inner = _literal_rows(it[2][0])
+        if inner[0] in ('list', 'tuple'):
+            return ('list', tuple(('tuple', (num(i), v)) for i, v in enumerate(inner[1])))
+    if it[0] == 'call' and it[1] == ('ext', 'ZIP') and len(it[2]) >= 2 and not it[3]:
+        cols = [_literal_rows(c) for c in it[2]]
+        if all(c[0] in ('list', 'tuple') for c in cols):
+            return ('list', tuple(('tuple', tuple(r)) for r in zip(*[c[1] for c in cols])))
+    return it
 
 
 def _is_generator(fn):
@@ -2157,6 +2237,10 @@ class Valuation:
                 return self.strs[fmt(t[2])] in T.const_eval(t[3])
             except Exception:
                 pass
+        if t[0] == 'cmp' and t[1] == 'in' and self.nums and t[3][0] in ('tuple', 'list', 'set') and all(z[0] == 'num' for z in t[3][1]):
+            x = self.value(t[2])
+            if x is not None:
+                return any(x == z[1] for z in t[3][1])
         if t[0] == 'cmp' and self.nums and t[1] in ('<', '<=', '=='):
             x, y = self.value(t[2]), self.value(t[3])
             if x is not None and y is not None:
